@@ -186,7 +186,8 @@ fn gen_split_big(a: &str, s: &[usize], thorough: bool, out: &mut dyn FnMut(Strin
         if thorough {
             out(format!("split {a} 2 0")); out(format!("split {a} {} {}", s[nd - 1], nd - 1)); out(format!("split_axis {a} {}", nd - 1)); out(format!("array_split {a} {} none", uneven(s[0])));
             out(format!("hsplit {a} 2")); out(format!("vsplit {a} 2")); out(format!("dsplit {a} 2"));
-            for ax in 0..nd { out(format!("split_concat {a} {} {ax}", uneven(s[ax]))); out(format!("array_split {a} {} {ax}", 2 * s[ax] + 1)); }
+            if nd >= 2 { out(format!("split_concat {a} {} 0", uneven(s[0]))); }
+            for ax in 0..nd { out(format!("array_split {a} {} {ax}", 2 * s[ax] + 1)); }
         }
     } else {
         out(format!("array_split {a} {} none", uneven(s[0]))); out(format!("split {a} 2 none")); out(format!("array_split {a} 2 {nd}")); out(format!("array_split {a} 0 0"));
@@ -341,7 +342,7 @@ fn gen(tier: &str, seed: u64, out: &mut dyn FnMut(String)) {
             (vec![4, 0, 33, 2], 1), (vec![2, 0, 16, 17], 1), (vec![7, 0, 16], 1), (vec![2, 1, 0, 300], 2), (vec![3, 2, 2, 0, 64], 3), (vec![17, 0, 9], 1), (vec![2, 0, 31], 1), (vec![2, 0, 32], 1)];
         if thorough { templates.extend(vec![(vec![7, 0, 17, 16], 1), (vec![2, 0, 4100], 1), (vec![3, 0, 5, 5, 5], 1), (vec![2, 0, 128], 1), (vec![2, 0, 127], 1), (vec![2, 0, 255], 1), (vec![2, 0, 256], 1), (vec![2, 0, 257], 1), (vec![9, 8, 0, 70], 2)]); }
         let combos: Vec<Vec<usize>> = vec![vec![1, 2], vec![2, 1], vec![3, 1], vec![1, 3], vec![2, 2], vec![1, 1, 1], vec![2, 1, 3], vec![0, 2], vec![2, 0], vec![1, 0, 2], vec![1, 1], vec![5, 7]];
-        let cap = if thorough { 12000 } else { 4200 };
+        let cap = if thorough { 9000 } else { 4200 };
         for (tpl, ax) in &templates {
             let unit: usize = tpl.iter().enumerate().map(|(i, &d)| if i == *ax { 1 } else { d }).product();
             for c in &combos {
@@ -350,11 +351,11 @@ fn gen(tier: &str, seed: u64, out: &mut dyn FnMut(String)) {
                 if !thorough && ((unit > 300 && !matches!(c.as_slice(), [1, 2] | [2, 1] | [1, 1, 1] | [0, 2])) || (unit > 150 && c.as_slice() == [5, 7])) { continue; }
                 let items: Vec<(Vec<usize>, i64)> = c.iter().enumerate().map(|(j, &m)| { let mut t = tpl.clone(); t[*ax] = m; (t, 10000 * j as i64) }).collect();
                 let total = unit * c.iter().sum::<usize>();
-                if total > 1200 && !thorough { if c.len() == 2 { out(format!("append {} {} {ax}", tag_off(&items[0].0, 0), tag_off(&items[1].0, 10000))); } else { out(format!("concatenate {} {ax}", list(&items))); } continue; }
+                if total > (if thorough { 4000 } else { 1200 }) { if c.len() == 2 { out(format!("append {} {} {ax}", tag_off(&items[0].0, 0), tag_off(&items[1].0, 10000))); } else { out(format!("concatenate {} {ax}", list(&items))); } continue; }
                 out(format!("concatenate {} {ax}", list(&items)));
                 out(format!("append {} {} {ax}", tag_off(&items[0].0, 0), tag_off(&items[1].0, 10000)));
                 out(format!("append {} {} {ax}", tag_off(&items[1].0, 10000), tag_off(&items[0].0, 0)));
-                if c.iter().all(|&m| m == c[0]) { out(format!("stack {} {ax}", list(&items))); out(format!("stack {} 0", list(&items))); }
+                if c.iter().all(|&m| m == c[0]) { out(format!("stack {} {ax}", list(&items))); if total <= 2000 { out(format!("stack {} 0", list(&items))); } }
                 let ops: &[&str] = match ax { 0 => &["vstack", "row_stack"], 1 => &["hstack", "column_stack"], 2 => &["dstack"], _ => &[] };
                 for op in ops { if *op == "column_stack" && tpl.len() > 2 { continue; } out(format!("{op} {}", list(&items))); }
                 if c.len() == 2 { out(format!("split_concat {} {} {ax}", tag(&items[0].0), 1 + c[1])); }
